@@ -803,6 +803,17 @@ func c05FreshInstance(c *Ctx, r *Report, rule string) {
 				if v, ok := o.(*types.Var); ok && within(fi.Decl.Body, v.Pos()) && depth < 3 {
 					bad, seen := "", false
 					ast.Inspect(fi.Decl.Body, func(x ast.Node) bool {
+						if vs, isSpec := x.(*ast.ValueSpec); isSpec {
+							for i, nm := range vs.Names {
+								if info.Defs[nm] == o && i < len(vs.Values) {
+									seen = true
+									if why := classify(vs.Values[i], depth+1); why != "" {
+										bad = why
+									}
+								}
+							}
+							return true
+						}
 						as, ok := x.(*ast.AssignStmt)
 						if !ok {
 							return true
